@@ -63,6 +63,38 @@ Section CollapseState.
   Proof. intro Hr. rewrite collapse_indexing by exact Hr. reflexivity. Qed.
 End CollapseState.
 
+(* ================= shot records ================= *)
+Theorem record_layout n ms x :
+  length (record n ms x) = (length ms + n)%nat
+  /\ firstn (length ms) (record n ms x) = ms
+  /\ (forall q, (q < n)%nat -> nth (length ms + q) (record n ms x) false = N.testbit x (N.of_nat q)).
+Proof.
+  unfold record. split; [rewrite app_length, map_length, seq_length; reflexivity|]. split.
+  - rewrite firstn_app, Nat.sub_diag, firstn_all. simpl. apply app_nil_r.
+  - intros q Hq. rewrite app_nth2 by lia.
+    replace (length ms + q - length ms)%nat with q by lia.
+    set (f := fun q0 : nat => N.testbit x (N.of_nat q0)).
+    rewrite (nth_indep _ false (f 0%nat)) by (rewrite map_length, seq_length; exact Hq).
+    rewrite map_nth, seq_nth by exact Hq. reflexivity.
+Qed.
+
+(* reading the measurement columns in numeric key order gives the record, for ANY number of keys *)
+Theorem assemble_is_record (meas : nat -> bool) n ms x :
+  (forall i, (i < length ms)%nat -> meas i = nth i ms false) ->
+  (forall q, (q < n)%nat -> meas (length ms + q)%nat = N.testbit x (N.of_nat q)) ->
+  assemble meas (length ms) n = record n ms x.
+Proof.
+  intros Hm Hq. unfold assemble, record. rewrite seq_app, map_app. f_equal.
+  - clear Hq. revert meas Hm. induction ms as [|b r IH]; intros meas Hm; [reflexivity|].
+    simpl length. rewrite <- cons_seq, <- seq_shift. simpl. rewrite map_map. f_equal.
+    + apply (Hm 0%nat). simpl. lia.
+    + apply (IH (fun i => meas (Datatypes.S i))). intros i Hi. apply (Hm (Datatypes.S i)). simpl. lia.
+  - simpl.
+    assert (Hs : seq (length ms) n = map (fun q => (length ms + q)%nat) (seq 0 n)).
+    { clear. induction n as [|k IH]; [reflexivity|]. rewrite !seq_S, map_app, <- IH. reflexivity. }
+    rewrite Hs, map_map. apply map_ext_in. intros q Hin. apply in_seq in Hin. apply Hq. lia.
+Qed.
+
 (* ================= the replay loop ================= *)
 Local Arguments MidCircuit.requeue : simpl never.
 Local Arguments MidCircuit.expand : simpl never.
